@@ -60,6 +60,7 @@ class Ctx:
         self._facts = None
         self._use_cache = use_cache
         self._cfgs: Dict[str, Any] = {}
+        self.rule_map: Dict[str, str] = {}     # a rule shared with another property reports under this property's own id
 
     # -- lazily computed fact bases ------------------------------------------------------------------------
     @property
@@ -86,6 +87,7 @@ class Ctx:
 
     def _mk(self, ok: bool, rule: str, instance: str, fn: Optional[loader.Func], node: Optional[ast.AST],
             msg: str, key_text: Optional[str], detail: Optional[Dict[str, Any]]) -> Ob:
+        rule = self.rule_map.get(rule, rule)
         where = fn.loc(node) if fn is not None else "-"
         fq = fn.qualname if fn is not None else "-"
         if fn is not None:
@@ -116,6 +118,7 @@ class Ctx:
             raise AnalysisError(what)
 
     def floor(self, rule: str, what: str, count: int, minimum: int) -> None:
+        rule = self.rule_map.get(rule, rule)
         self.counters[f"{rule}:{what}"] = count
         if count < minimum:
             raise AnalysisError(f"{rule}: only {count} instance(s) of '{what}' found, floor confirmed by hand "
